@@ -96,8 +96,53 @@ def swap1(n, k0, k1, k2, k3) -> bool:
     return _swap_prone(_kinds(*realize((n, k0, k1, k2, k3))))
 
 
-def swap3(size, a, b, c) -> bool:
-    return any(_swap_prone(t) for t in _suite(*realize((size, a, b, c))))
+def _without_the_bumps(kinds):
+    """The test case a count-comparing minimizer leaves behind: without the bumps between the creation of a counter and
+    its first step (they only decide WHICH arm of step is taken)."""
+    drop, bumps, counter, stepped = set(), [], False, False
+    for i, k in enumerate(kinds):
+        name = L.KINDS[k]
+        if name == "new":
+            bumps, counter, stepped = [], True, False
+        elif name == "bump" and counter and not stepped:
+            bumps.append(i)
+        elif name == "step" and counter:
+            if not stepped:
+                drop |= set(bumps)
+            stepped = True
+    return tuple(k for i, k in enumerate(kinds) if i not in drop)
+
+
+_TRUTH: dict = {}
+
+
+def _truth_of(kinds):
+    """(lines, branch events) the interpreter reports when the test case runs against the uninstrumented subject."""
+    if kinds not in _TRUTH:
+        _TRUTH[kinds] = L.untraced(lambda: L.world().truth([[src for src, _name, _type in L.statement_sources(kinds)]]))
+    return _TRUTH[kinds]
+
+
+def _union(tests):
+    lines, branches = set(), set()
+    for t in tests:
+        lines |= _truth_of(t)[0]
+        branches |= _truth_of(t)[1]
+    return lines, branches
+
+
+def swap3(size, a, b, c, cfg) -> bool:
+    """Region of the count-comparison finding for suites of templates, from the interpreter's own coverage: replacing
+    every swap-prone test case by its bump-less version changes the set of lines / branches the suite reaches -- and,
+    for SUITE / COMBINED (which compare the coverage of the whole suite once more), not their number."""
+    size, a, b, c, cfg = realize((size, a, b, c, cfg))
+    tests = _suite(size, a, b, c)
+    before, after = _union(tests), _union([_without_the_bumps(t) for t in tests])
+    if before == after:
+        return False
+    if cfg <= 1:
+        return True
+    return (len(before[0]), len(before[1])) == (len(after[0]), len(after[1]))
 
 
 def _counter_makers(kinds) -> int:
@@ -138,6 +183,36 @@ def _field_only(kinds, am) -> bool:
 def field_only1(n, k0, k1, k2, k3, am) -> bool:
     n, k0, k1, k2, k3, am = realize((n, k0, k1, k2, k3, am))
     return _field_only(_kinds(n, k0, k1, k2, k3), am)
+
+
+def suite_deletes(size, a, b, c, am) -> bool:
+    """Reference model of suite-level minimization as documented (go through the test cases in order; delete one if the
+    others still reach the same NUMBER of lines and branches), evaluated on the interpreter's own coverage of the original
+    test cases: does it delete a test case?  (am 4: one with a Counter variable -- only those keep an assertion on a variable)"""
+    size, a, b, c, am = realize((size, a, b, c, am))
+    tests = (a, b, c)[:size]
+
+    def count(ix):
+        lines, branches = set(), set()
+        for i in ix:
+            lines |= _truth_of(_T[tests[i]])[0]
+            branches |= _truth_of(_T[tests[i]])[1]
+        return len(lines), len(branches)
+
+    remaining = list(range(size))
+    total = count(remaining)
+    deleted = []
+    i = 0
+    while i < len(remaining) and len(remaining) > 1:
+        rest = remaining[:i] + remaining[i + 1:]
+        if count(rest) == total:
+            deleted.append(remaining[i])
+            remaining = rest
+        else:
+            i += 1
+    if am == 4:
+        deleted = [i for i in deleted if L.K["new"] in _T[tests[i]]]
+    return bool(deleted)
 
 
 # ------------------------------------------------------------------------------------------------ one test case
@@ -259,10 +334,10 @@ def obligations(tier: str):
         obs.append(Chx("ass_single", h_ass_single, timeout=T, fix={"m": 8, "nmax": 2, "amax": 1, "cfg": 4}))
         # two test cases out of the first 8 templates, three out of the first 4
         obs.append(Chx("cov_pair", h_cov_suite, timeout=T, fix={"size": 2, "tmax": 8, "amax": 1}, split={"cfg": cfgs}))
-        obs.append(Chx("ass_pair", h_ass_suite, timeout=T, fix={"size": 2, "tmax": 8, "amax": 2}, split={"cfg": [0, 1]}))
-        obs.append(Chx("ass_pair", h_ass_suite, timeout=T, fix={"size": 2, "tmax": 4, "amax": 1}, split={"cfg": [2, 4]}))
+        obs.append(Chx("ass_pair", h_ass_suite, timeout=T, fix={"size": 2, "tmax": 8, "amax": 2}, split={"cfg": [0, 1, 2, 3]}))
+        obs.append(Chx("ass_pair", h_ass_suite, timeout=T, fix={"size": 2, "tmax": 4, "amax": 1, "cfg": 4}))
         obs.append(Chx("cov_triple", h_cov_suite, timeout=T, fix={"size": 3, "tmax": 4, "amax": 0}, split={"cfg": cfgs}))
-        obs.append(Chx("ass_triple", h_ass_suite, timeout=T, fix={"size": 3, "tmax": 4, "amax": 1}, split={"cfg": [0, 1]}))
+        obs.append(Chx("ass_triple", h_ass_suite, timeout=T, fix={"size": 3, "tmax": 4, "amax": 1}, split={"cfg": [0, 1, 2, 3]}))
         return obs
     # ---- thorough
     obs.append(Chx("cov_single", h_cov_single, timeout=T, fix={"m": 11, "nmax": 3, "amax": 2}, split={"cfg": cfgs, "am": [0, 1, 2]}))
@@ -273,8 +348,8 @@ def obligations(tier: str):
                    split={"cfg": [0, 1], "am": [1, 2, 3], "k0": list(range(8))}))
     obs.append(Chx("ass_single", h_ass_single, timeout=T, fix={"m": 11, "nmax": 2, "amax": 4}, split={"cfg": [4, 5]}))
     obs.append(Chx("cov_pair", h_cov_suite, timeout=T, fix={"size": 2, "tmax": 12, "amax": 2}, split={"cfg": cfgs}))
-    obs.append(Chx("ass_pair", h_ass_suite, timeout=T, fix={"size": 2, "tmax": 12, "amax": 4}, split={"cfg": [0, 1]}))
-    obs.append(Chx("ass_pair", h_ass_suite, timeout=T, fix={"size": 2, "tmax": 6, "amax": 1}, split={"cfg": [2, 3, 4, 5]}))
+    obs.append(Chx("ass_pair", h_ass_suite, timeout=T, fix={"size": 2, "tmax": 12, "amax": 4}, split={"cfg": [0, 1, 2, 3]}))
+    obs.append(Chx("ass_pair", h_ass_suite, timeout=T, fix={"size": 2, "tmax": 6, "amax": 1}, split={"cfg": [4, 5]}))
     obs.append(Chx("cov_triple", h_cov_suite, timeout=T, fix={"size": 3, "tmax": 8, "amax": 1}, split={"cfg": cfgs, "am": [0, 1]}))
-    obs.append(Chx("ass_triple", h_ass_suite, timeout=T, fix={"size": 3, "tmax": 8, "amax": 3}, split={"cfg": [0, 1], "am": [1, 2, 3]}))
+    obs.append(Chx("ass_triple", h_ass_suite, timeout=T, fix={"size": 3, "tmax": 8, "amax": 3}, split={"cfg": [0, 1, 2, 3], "am": [1, 2, 3]}))
     return obs
